@@ -159,6 +159,12 @@ def handle (mode : String) (line : String) : String :=
     | "table" :: evs =>
       let exp := tableSpec evs
       if obs == exp then "ok" else s!"violates peer table: expected `{exp}` (one live entry per peer whose latest event is a well-formed datagram or a server-initiated connection)"
+    | "serve" :: "udpwild" :: _ =>
+      match words obs with
+      | ["wild", "a", ga, "b", gb, "stopped", _] =>
+        if ga == "2/2" && gb == "1/1" then "ok"
+        else s!"violates peers that reach a wildcard-bound datagram server over different local addresses: peer A got {ga} of its responses, peer B {gb} (a response must come from the address its request was sent to, whatever other peers send meanwhile)"
+      | _ => "violates unparsable-observation"
     | "serve" :: "udpbacklog" :: _ =>
       match words obs with
       | ["b", "got", g, "waited", w, "slowhandled", _, "serving", sv] =>
